@@ -11,28 +11,28 @@ CHECKS = {
          "Decides three structural clauses: R-LALR (exhaustive exploration of the LALR block parser's configuration space: every sequence of real line kinds is accepted, no error action, stack bounded), R-DISPATCH (every producible token type has a non-escape branch in all 7 writers, by EDPE), R-REDUCE (every reduce action reads all right-hand-side stack slots of its rule), R-LINESTRIP (every line kind a parser action retypes to is unwrapped before export, and no kind is unwrapped in one context but kept raw in another), R-SIBLING (OPML/ITMZ outline writers print the same source ranges per type), R-NOEXIT (no exit/abort reachable from the API). Does not decide that the rendering contains all text.",
          "§3 C02"),
  "C04": ("other", "enum-dispatch partial evaluation (EDPE) of every writer over t->type: token-type x writer matrix, sibling agreement",
-         "Decides structural clauses: no writer takes the unknown-token escape for a producible type (text dropped), LaTeX/OpenDocument emit or descend wherever HTML does, document-derived strings reach HTML/XML output only through the escape helpers (R-SINK), reserved-lexeme tokens are never printed raw, each format's character escaper covers its reserved set, and the outline writers (OPML, ITMZ, Beamer) decide closing of items/frames by comparing two levels that are the same linear function of the heading kind (R-LEVEL: EDPE + constant propagation); document-derived strings in LaTeX text positions go through the LaTeX escaper (R-SINK/latex); per writer branch every tag / environment opened is closed under the same guard conditions (R-BALANCE). Does not decide word order, verbatim reproduction or cross-format equality.",
+         "Decides structural clauses: no writer takes the unknown-token escape for a producible type (text dropped), LaTeX/OpenDocument emit or descend wherever HTML does, document-derived strings reach HTML/XML output only through the escape helpers (R-SINK), reserved-lexeme tokens are never printed raw, each format's character escaper covers its reserved set and a string printer copies raw runs only when delimited by a set covering every escaped byte, sanitised record fields only receive sanitiser results (R-SINK/provenance), note lists re-read their length (R-NOTELIST), and the outline writers (OPML, ITMZ, Beamer) decide closing of items/frames by comparing two levels that are the same linear function of the heading kind (R-LEVEL: EDPE + constant propagation); document-derived strings in LaTeX text positions go through the LaTeX escaper (R-SINK/latex); per writer branch every tag / environment opened is closed under the same guard conditions (R-BALANCE). Does not decide word order, verbatim reproduction or cross-format equality.",
          "§3 C04"),
  "C06": ("other", "must-pass-through / dominator checks on the wrapper functions' CFGs, EDPE over `format`, type-level pointer-to-pointer check",
-         "Decides that every string/DString variant is a thin wrapper (delegates on all paths, sets language, forwards arguments, frees with the right ownership flag), that convert_to_data and convert_to_file build the same package per format, that every export is dominated by a (re)parse of the same engine, the CLI's -t table and output-name derivation, and that no output_format value flows into an lc_languages slot or vice versa (R-ENUMKIND kind inference over assignments and argument bindings). Byte equality follows because the engine function is shared; it is not itself checked.",
+         "Decides that every string/DString variant is a thin wrapper (delegates on all paths, sets language, forwards arguments, frees with the right ownership flag), that convert_to_data and convert_to_file build the same package per format, that every export is dominated by a (re)parse of the same engine and the parse entry points cannot skip the reset / tokenizer / parser, the CLI's -t table and output-name derivation, and that no output_format value flows into an lc_languages slot or vice versa (R-ENUMKIND kind inference over assignments and argument bindings). Byte equality follows because the engine function is shared; it is not itself checked.",
          "§3 C06"),
  "C05": ("other", "whole-program inventory of global-storage objects and stateful libc calls + call-graph reachability",
          "Decides: R-GLOBAL (every mutable global and stateful libc call reachable from a conversion is enumerated and must be allowed by the property's own terms), R-RESET (every container of the engine is cleared before a re-parse), R-INIT (no indeterminate heap value is read), R-SRCCONST (the conversion cone never writes the caller's source, with interprocedural DString-mutation summaries), R-INCDEC (depth / skip counters are decremented on every path from each increment to the exit). Does not decide byte equality of outputs as such.",
          "§3 C05"),
  "C19": ("other", "dominator / post-dominator obligations and a relational interval fact (pos <= length) on the CFGs of d_string.c; field-write coherence census outside it",
-         "Decides the structural discipline the string model rests on: capacity ensured for exactly the stored length before every growing write, NUL re-stored after every length change, positions clamped or rejected before addressing, the -1 forms tested first, ensureStringBufferCanHold reserving size+1 and recording what it reallocated, DString fields written coherently outside d_string.c, editing loops moving their carried positions by exactly the net length change (R-DSTR/editloop), and writes into freshly allocated buffers staying inside the allocation (R-HEAPIDX: d_string_new, d_string_copy_substring). Does not decide equality with an ideal string (memmove lengths are not verified).",
+         "Decides the structural discipline the string model rests on: capacity ensured for exactly the stored length before every growing write, NUL re-stored after every length change, positions clamped or rejected before addressing, the -1 forms tested first (every length parameter of d_string.c is compared with -1), ensureStringBufferCanHold reserving size+1 and recording what it reallocated, DString fields written coherently outside d_string.c, editing loops moving their carried positions by exactly the net length change (R-DSTR/editloop), and writes into freshly allocated buffers staying inside the allocation (R-HEAPIDX: d_string_new, d_string_copy_substring). Does not decide equality with an ideal string (memmove lengths are not verified).",
          "§3 C19"),
  "C07": ("other", "call-graph SCC classification: depth-guard recognition (dominators), monotone-parameter recursion, block-only descent by EDPE, leaf self-calls from the pairing table; stack budget from compile-only -fstack-usage",
          "Decides the stack clause structurally: every recursive cycle reachable from the API is bounded by a guard against a constant (or confined to block-level nesting / flat input / a visited set) and bound x frame sizes fits a 2 MiB budget; plus R-CONSTTIME (append primitives are loop-free) and R-COUNTER (the pair matcher's opener counts follow every push and removal), necessary conditions of the linear-cost clause; R-INCDEC (a leaked depth increment would defeat the guard on later calls). Asymptotic cost itself is NOT decided (data-dependent loops).",
          "§3 C07"),
  "C08": ("other", "taint-style def-use classification (reaching definitions) of every non-literal output sink in the XML/HTML writer units; EDPE sibling comparison of raw token printing; EDPE escaper tables over all 256 bytes",
-         "Decides the escaping discipline: document-derived strings (urls, titles, attribute keys/values, metadata values, fence info strings, clean_string results) reach html/odf/opml/itmz/epub output only through the format's escape helper; token types that some dispatcher renders as an entity are never printed as raw token text by another; the character escapers map & < > \" to entities and pass bytes >= 0x80 through unchanged under both signednesses of plain char; the OPML/ITMZ escaper and the unescaper are inverse; per writer branch every element opened is closed under the same guards (R-BALANCE). Whole-output well-formedness for every input (control characters, data-dependent nesting) is not decided.",
+         "Decides the escaping discipline: document-derived strings (urls, titles, attribute keys/values, metadata values, fence info strings, clean_string results) reach html/odf/opml/itmz/epub output only through the format's escape helper; token types that some dispatcher renders as an entity are never printed as raw token text by another; the character escapers map & < > \" to entities and pass bytes >= 0x80 through unchanged under both signednesses of plain char; the OPML/ITMZ escaper and the unescaper are inverse (entity decoding order included); record fields printed unescaped only ever receive sanitiser / generator results (R-SINK/provenance); per writer branch every element opened is closed under the same guards (R-BALANCE). Whole-output well-formedness for every input (control characters, data-dependent nesting) is not decided.",
          "§3 C08"),
  "C09": ("other", "call-site census of every mz_zip_writer_add_mem in the package creators (names, order by dominance, flags, data provenance) and cross-literal agreement checks (container.xml / OPF manifest / ODF manifest vs. member names)",
          "Decides the structural clauses: required members are added under the right names, mimetype first (and stored for ODT) with the right media-type literal, container.xml names the OPF member, the OPF manifest's hrefs and the ODF manifest's full-paths all exist as members, the main member's data is the rendered body, every creator finalises the heap archive into the result DString after all adds, asset names come from uuid_new and the asset table is handed to the builder; ODT and FODT are decided alike by every format branch outside the packaging layer (R-FORMATPAIR, EDPE); the length delta of in-place asset-path replacement is consumed whenever the buffer is used again (R-EDITDELTA); a snapshot of a DString's length is not used as that buffer's length after a call that may change it (R-STALE/len); plus R-PTRPTR. CRCs, miniz correctness and byte-level archive validity are not decided.",
          "§3 C09"),
  "C10": ("other", "format-literal census of every id=/href=# anchor site with reaching-definition classification of the printed number; provenance check of heading anchors (one label function); field-write census of the numbering counters",
-         "Decides: within each anchor family (fn, fnref, cn, cnref, gn, gnref) every id and every reference print the number derived the same way (plain vs EXT_RANDOM_FOOT-transformed), each referenced family has an id site, heading ids / TOC / EPUB nav / LaTeX labels / ODF bookmarks all come from label_from_header, the auto-link target does too (known finding), the note lists iterate the stacks that assign the numbers and re-read their length, every call anchor is governed by the first-use test, and the random renaming is only ever applied to a plain ordinal. That every reference resolves for every document (label text equality) is not decided.",
+         "Decides: within each anchor family (fn, fnref, cn, cnref, gn, gnref) every id and every reference print the number derived the same way (plain vs EXT_RANDOM_FOOT-transformed), each referenced family has an id site, heading ids / TOC / EPUB nav / LaTeX labels / ODF bookmarks all come from label_from_header, the auto-link target does too (known finding), the note lists iterate the stacks that assign the numbers and re-read their length, every call anchor is governed by the first-use test, the random renaming is only ever applied to a plain ordinal, and no heading link target is registered when EXT_NO_LABELS suppresses the heading ids. That every reference resolves for every document (label text equality) is not decided.",
          "§3 C10"),
  "C11": ("other", "AST census of every comparison / hash lookup against a stored metadata key; provenance check of the compared value (normaliser result, fixed-point literal, caller arguments)",
          "Decides necessary conditions only (explicitly weak): keys are stored through label_from_string and every strcmp / HASH_FIND_STR against a stored key uses a value in the same normal form, the API functions detect metadata before reading the stack, forward character scans (key / value location) stop at the end of input (R-SCANSTOP), a trailing trim tests the element it removes (R-TRIMIDX), clean_string's whitespace flag follows every append on every path for all byte values (R-WSFLAG), and every LINE_EMPTY classification closes the metadata window (R-METAWINDOW). Offsets, value extraction, continuation joining and update splicing are data-dependent string arithmetic and are not decided.",
@@ -47,10 +47,10 @@ CHECKS = {
          "Decides the termination guard and one manifest clause: the recursive call is dominated by the push of the file and by a membership test over the files being expanded whose hit branch skips the recursion, the name tested is the very name pushed (not edited in between), every push is followed by exactly one pop, exit restores the stack; the 1000-byte cap fits text[1100]; the manifest query expands a private copy, never the engine's source; path construction never appends the string a buffer was created from a second time (R-ONCE). Exact substitution, manifest contents and path resolution are not decided.",
          "§3 C13"),
  "C15": ("other", "generated _Static_assert witnesses compiled with clang -fsyntax-only + AST census of next/prev/mate stores + whole-program value-origin analysis of token.type",
-         "Decides the compile-time clause exhaustively (every parser terminal below the first block type, every token/critic type below kMaxTokenTypes, every offset-arithmetic family consecutive and equally long, sizeof(token) fits the pool) and two structural necessary conditions of the run-time clauses: R-LINK (next stores are matched by prev stores, mate written symmetrically, tail stored only on chain heads, token_pair_mate only on unmatched tokens), R-SPAN/split (the split primitives tile the original span) and R-TYPEWRITE. Span containment, source order and root span are not decided.",
+         "Decides the compile-time clause exhaustively (every parser terminal below the first block type, every token/critic type below kMaxTokenTypes, every offset-arithmetic family consecutive and equally long, sizeof(token) fits the pool) and two structural necessary conditions of the run-time clauses: R-LINK (next stores are matched by prev stores, mate written symmetrically, tail stored only on chain heads, token_pair_mate only on unmatched tokens), R-SPAN/split (the split primitives tile the original span), R-STALE/len (no token span is cut with a source length read before the text was replaced) and R-TYPEWRITE. Span containment, source order and root span are not decided.",
          "§3 C15"),
  "C18": ("other", "structural obligations (dominators, guard conditions) on object_pool.c/token.c and a counter abstraction (set-of-counts dataflow) over main's CFG",
-         "Decides the implementation-side structure of the protocol: slab arithmetic consistent, bump gated by next<last and refill at next==last, slab aliases reset after drain, shared pool drained/freed only at use count 0, init idempotent, and the CLI never allocates tokens outside an init..drain bracket and frees at count 0. Behaviour of arbitrary client call histories is not decided.",
+         "Decides the implementation-side structure of the protocol: slab arithmetic consistent, bump gated by next<last and refill at next==last, slab aliases reset after drain, shared pool drained/freed only at use count 0, init idempotent (and never draining), every drain / free of the shared pool in token.c gated by use count 0, and the CLI never allocates tokens outside an init..drain bracket and frees at count 0. Behaviour of arbitrary client call histories is not decided.",
          "§3 C18"),
  "C16": ("other", "constant-table inspection (smart_char_type initialiser from the AST), cast check on every table lookup, whole-program absence of setlocale, interval analysis of the tolower argument in label_from_string",
          "Decides necessary conditions only (explicitly weak): the byte classifier is neutral on every byte >= 0x80 and is always indexed as unsigned char; ctype functions run only in the C locale (no setlocale anywhere) and label_from_string case-maps only ASCII while copying lead+continuation bytes unclassified, with the copy loop bounded by nothing but the continuation test; no hand-written code compares a single text byte with a constant >= 0x80 outside mask form (R-HIGHBYTE); trailing trims test the element they remove (R-TRIMIDX). The re2c scanners' treatment of 0xA0 and truncations at length limits are not decided.",
